@@ -10,6 +10,7 @@ mod m_parser;
 mod m_cmp;
 mod m_sliceiter;
 mod m_chars;
+mod m_rangeiter;
 
 use common::*;
 use rand::{rngs::SmallRng, SeedableRng};
@@ -25,6 +26,7 @@ fn replay_line(s: &mut Summary, v: &V) {
         "Cmp" => m_cmp::replay(s, v),
         "SliceIter" => m_sliceiter::replay(s, v),
         "Chars" => m_chars::replay(s, v),
+        "RangeIter" => m_rangeiter::replay(s, v),
         m => panic!("kh: unknown module {m}"),
     }
 }
@@ -78,6 +80,9 @@ fn main() {
                 "Cmp" => m_cmp::record(&mut rng, n, &mut out),
                 "SliceIter" => m_sliceiter::record(&mut rng, n, &mut out),
                 "Chars" => m_chars::record(&mut rng, n, &mut out),
+                "RangeIter-u16" => m_rangeiter::record("u16", &mut rng, n, &mut out),
+                "RangeIter-i16" => m_rangeiter::record("i16", &mut rng, n, &mut out),
+                "RangeIter-char" => m_rangeiter::record("char", &mut rng, n, &mut out),
                 // seed = first block, n = number of 256-value blocks
                 "CharSweep" => m_chars::record_sweep(seed as u32, n as u32, &mut out),
                 m => panic!("kh: unknown module {m}"),
